@@ -1,6 +1,8 @@
 CONSTANT Rep = {"a", "b", "c"}
 CONSTANT MaxSteps = 6
 CONSTANT Resolutions = {"RemoteWins", "LocalWins", "Merge"}
+CONSTANT EditCap = 99
+CONSTANT Directed = FALSE
 CONSTANT RepOrder <- Order3
 SPECIFICATION Spec
 INVARIANT BehaviourExport
